@@ -96,7 +96,7 @@ func genCase(t *rapid.T) c13Case {
 		c.Steps = append(c.Steps, s)
 	}
 	nf := []int{0, 0, 0, 1, 1, 2}[rapid.IntRange(0, 5).Draw(t, "nfaults")]
-	kinds := []string{"other-log", "other-log", "other-log-head", "other-log-head", "stale-head", "swap"}
+	kinds := []string{"other-log", "other-log", "other-log-head", "other-log-head", "other-log-head", "stale-head", "swap", "error", "error"}
 	classes := [][2]string{{"remote", "lookup"}, {"remote", "tile"}, {"remote", "tile"}, {"cache", "tile"}, {"cache", "lookup"}, {"config", "latest"}}
 	for i := 0; i < nf; i++ {
 		cl := classes[gen.Uniform(t, len(classes), "class")]
@@ -130,6 +130,17 @@ func genCase(t *rapid.T) c13Case {
 			c.Steps = append(c.Steps, step{LogB: true, Size: sz, Mod: mod})
 		}
 		ns = len(c.Steps)
+		if gen.Chance(t, 40, "ttileerror") {
+			// ... while some tile cannot be read (cold cache in that case, so that tiles are really fetched)
+			c.Prefill = []int{0, 1}[gen.Uniform(t, 2, "tprefill")]
+			c.Faults = append(c.Faults, sw.Fault{Op: "remote", Class: "tile", Ord: rapid.IntRange(0, 20).Draw(t, "tord"), Occ: 0, Kind: "error"})
+			if gen.Chance(t, 50, "tattach") {
+				// a genuine record of log A answered with a head of log B
+				c.Faults = append(c.Faults, sw.Fault{Op: "remote", Class: "lookup", Ord: rapid.IntRange(0, 20).Draw(t, "tord2"), Kind: "other-log-head", Size: rapid.Int64Range(c.P+1, c.NB).Draw(t, "tfsize")})
+				c.Steps = append(c.Steps, step{LogB: false, Size: c.NA, Mod: rapid.Int64Range(0, c.NA-1).Draw(t, "tmodA2")})
+				ns = len(c.Steps)
+			}
+		}
 	}
 	if rapid.IntRange(0, 3).Draw(t, "writer") == 0 {
 		c.WriterStep = rapid.IntRange(0, ns-1).Draw(t, "writerstep")
